@@ -34,7 +34,7 @@ class Canonical(MonteCarlo[MoveType, CriteriaType], Generic[MoveType, CriteriaTy
     temperature : float, optional
         The temperature of the simulation in Kelvin, by default 298.15 K.
     max_cycles : int, optional
-        The number of Monte Carlo cycles to perform, by default equal to the number of atoms.
+        The number of Monte Carlo cycles to perform, by default equal to the number of atoms (one for an empty system).
     default_displacement_move : MoveType | None, optional
         The default displacement move to perform in each cycle, by default None.
     **mc_kwargs : Any
@@ -64,7 +64,9 @@ class Canonical(MonteCarlo[MoveType, CriteriaType], Generic[MoveType, CriteriaTy
     ) -> None:
         """Initialize the `Canonical` object."""
         if max_cycles is None:
-            max_cycles = len(atoms)
+            # one cycle per atom, and at least one: a grand-canonical run that starts from an
+            # empty box would otherwise never attempt a single move
+            max_cycles = max(len(atoms), 1)
 
         super().__init__(atoms, max_cycles=max_cycles, **mc_kwargs)
 
